@@ -100,7 +100,7 @@ def run_shard(spec, acc):
         r = rnd.random()
         if r < 0.08:
             real = rnd.choice(mods)
-            bogus = rnd.choice([real + "x", real[:-1] or "q", "nope.mod", real + ".zz"])
+            bogus = rnd.choice([real + "x", real[:-1] or "q", "nope.mod", real + ".zz", real + "." + ".".join(f"pkg{k:02d}" for k in range(40)) + ".typo"])
             if bogus not in mods:
                 aliases[bogus] = "Ghost"
         extra = {}
